@@ -62,6 +62,8 @@ def native_differential(scenario_path, runs=24):
         rc, out, dt = sh([exe, scenario_path], timeout=60)
         if first is None:
             first = out
+            if "C19-SECOND-GENERATION-DIFFERS" in out:
+                return ["C19: generating the same definition twice in one process gives different code (process-global state)"], out
         outs.add(out)
         if len(outs) > 1:
             return ["C19: separately started processes replaying the same history print different layouts or generated code (run 1 vs run %d)" % (i + 1)], \
